@@ -153,6 +153,49 @@ def scheme_order(scheme, c):
     return None
 
 
+class PsRecorder:
+    """records what one non-adaptive one-site projector-splitting call does: environment reads, system-block rebuilds and the
+    sign of every local Krylov evolution (forward = the direction of the requested step)."""
+
+    def __init__(self, dt):
+        self.dt, self.events = dt, []
+
+    def __enter__(self):
+        import renormalizer.mps.mps as mm
+        from renormalizer.mps.lib import Environ
+        self.mm, self.Environ = mm, Environ
+        self.o_read, self.o_get, self.o_exp = Environ.read, Environ.GetLR, mm.expm_krylov
+        rec = self
+        state = {"in_get": 0, "last": None}
+
+        def read(self_, domain, siteidx):
+            if not state["in_get"]:
+                rec.events.append(["read", domain, int(siteidx)])
+            return rec.o_read(self_, domain, siteidx)
+
+        def get(self_, domain, siteidx, *a, **k):
+            state["in_get"] += 1
+            try:
+                if k.get("method") == "System":
+                    rec.events.append(["sys", domain, int(siteidx)])
+                    state["last"] = "sys"
+                return rec.o_get(self_, domain, siteidx, *a, **k)
+            finally:
+                state["in_get"] -= 1
+
+        def expm(fn, dt, v, *a, **k):
+            ratio = complex(dt) / (-1j * complex(rec.dt) / 2)
+            sign = "+" if ratio.real > 0 else "-"
+            rec.events.append(["ev0" if state["last"] == "sys" else "ev1", sign])
+            state["last"] = None
+            return rec.o_exp(fn, dt, v, *a, **k)
+        Environ.read, Environ.GetLR, mm.expm_krylov = read, get, expm
+        return self
+
+    def __exit__(self, *a):
+        self.Environ.read, self.Environ.GetLR, self.mm.expm_krylov = self.o_read, self.o_get, self.o_exp
+
+
 def evolve_once(sys_, state, scheme, c, dt, td, keep_config=False):
     from renormalizer.utils import CompressConfig, CompressCriteria
     if not keep_config:
@@ -199,6 +242,11 @@ def run_case(sys_, case, idx, seed):
                     new = evolve_once(sys_, cur, scheme, c, dt, td)
                 evs = adaptive_trace.events(lrec.messages, dt)
                 out.setdefault("adaptive_traces", []).append({"kind": scheme, "target": adaptive_trace.UNITS, "tol": 20, "events": evs or [], "call": ci, "idx": idx})
+            elif scheme == "ps" and c["solver"] == "krylov" and not (c["adaptive"] and scheme == c["scheme"]):
+                start = "R" if cur.to_right else "L"
+                with PsRecorder(dt) as prec:
+                    new = evolve_once(sys_, cur, scheme, c, dt, td)
+                out.setdefault("ps_traces", []).append({"n": len(cur), "start": start, "events": prec.events, "idx": idx, "call": ci})
             else:
                 new = evolve_once(sys_, cur, scheme, c, dt, td)
         except Exception as e:
